@@ -324,3 +324,7 @@ def run(ctx):
     ctx.notes["rule"] = ("scenarios = plaintext length x {no fault, every single fault, every pair of faults} x verify on/off (table computed by TLC from "
                          "PacketR.Outcome); framing = all sequences of 1..3 packets; events = random keys/IVs/lengths with one random fault; distinct = scenario tuples")
     ctx.exhaustive = True
+    # history freedom of the functions of their input behind this property (Pure.tla)
+    from vt.checks import xpure
+
+    xpure.pure_part(ctx, xpure.entries_for("C05"))
